@@ -121,7 +121,7 @@ func (v Val) Lib() datatype.Type {
 	case KQoS:
 		return datatype.QoSFilterRule(v.S)
 	case KUnknown:
-		return datatype.Unknown(append([]byte{}, v.S...))
+		return datatype.Unknown(guarded(v.S))
 	case KU32:
 		return datatype.Unsigned32(uint32(v.U))
 	case KU64:
@@ -141,16 +141,46 @@ func (v Val) Lib() datatype.Type {
 	case KAddr:
 		switch v.Fam {
 		case 1, 2:
-			return datatype.Address(net.IP(append([]byte{}, v.S...)))
+			return datatype.Address(net.IP(guarded(v.S)))
 		}
 		// other families: the documented representation is family prefix + bytes
 		return datatype.Address(refcodec.Address(v.Fam, v.S))
 	case KIPv4:
-		return datatype.IPv4(append([]byte{}, v.S...))
+		return datatype.IPv4(guarded(v.S))
 	case KIPv6:
-		return datatype.IPv6(append([]byte{}, v.S...))
+		return datatype.IPv6(guarded(v.S))
 	}
 	panic("atoms: Lib of " + v.K.String())
+}
+
+// Slice-backed values are handed to the library the way a relay would hand them over: as a
+// sub-slice of a larger buffer that is still in use (the bytes behind the value belong to the
+// caller). GuardsIntact reports whether the library wrote behind any value since ResetGuards.
+var guards [][]byte
+
+func guarded(b []byte) []byte {
+	buf := make([]byte, len(b)+8)
+	copy(buf, b)
+	for i := len(b); i < len(buf); i++ {
+		buf[i] = 0xA5
+	}
+	if len(guards) < 4096 {
+		guards = append(guards, buf[len(b):])
+	}
+	return buf[:len(b)] // capacity reaches into the caller's bytes
+}
+
+func ResetGuards() { guards = guards[:0] }
+
+func GuardsIntact() string {
+	for _, g := range guards {
+		for i, x := range g {
+			if x != 0xA5 {
+				return fmt.Sprintf("the library wrote into the caller's buffer behind a slice-backed value it was given (byte %d behind the value is now %#x)", i, x)
+			}
+		}
+	}
+	return ""
 }
 
 // Canon renders a decoded library value into a canonical comparable form
@@ -330,6 +360,20 @@ func (n N) Lib() *diam.AVP {
 			g.AddAVP(k.Lib())
 		}
 		return diam.NewAVP(n.Code, n.Flags, n.Vendor, g)
+	}
+	return diam.NewAVP(n.Code, n.Flags, n.Vendor, n.V.Lib())
+}
+
+// LibTopDown builds the same AVP in the other order of familiar steps: the grouped AVP is
+// created around an empty group first (diam.NewAVP), its members are added afterwards.
+func (n N) LibTopDown() *diam.AVP {
+	if n.V.K == KGroup {
+		g := &diam.GroupedAVP{}
+		a := diam.NewAVP(n.Code, n.Flags, n.Vendor, g)
+		for _, k := range n.Kids {
+			g.AddAVP(k.LibTopDown())
+		}
+		return a
 	}
 	return diam.NewAVP(n.Code, n.Flags, n.Vendor, n.V.Lib())
 }
